@@ -111,7 +111,9 @@ def _parse_media_type_header(media_type: str) -> Tuple[str, str, dict]:
     if not separator:
         raise errors.InvalidMediaType('The media type value must contain type/subtype.')
 
-    return (main_type.strip(), subtype.strip(), params)
+    # NOTE: RFC 9110, Section 8.3.1: the type and subtype tokens are
+    #   case-insensitive.
+    return (main_type.strip().lower(), subtype.strip().lower(), params)
 
 
 # TODO(vytas): Should we make these data structures public?
